@@ -256,7 +256,8 @@ def build(tier):
                         'wlearner::merge never increases the number of learners and keeps an empty list empty (C10); wlearner_t::clone copies the learner',
                         'ml::tune returns a result with trials() >= 1, 0 <= optimum_trial() < trials() (C13) and 1 <= folds() <= 1000; extra(trial, fold) holds the gboost::result_t the callback returned for (trial, fold) (C13)',
                         'std::for_each / std::accumulate apply the operation once to every element of [first, last) in order; tensor_t::indexed(indices, out) gathers out(i) = self(indices(i))',
-                        'every sample listed in the index lists handed to mean_error / mean_loss is a column of errors_losses (C12: splits of arange(0, samples))'],
+                        'every sample listed in the index lists handed to mean_error / mean_loss is a column of errors_losses (C12: splits of arange(0, samples)); index lists hold at most 2^31 - 1 samples',
+                        'a fold model holds at most 10^6 learners (gboost::max_rounds domain); m_optims of ml::result_t is (2, 12) (its constructor, specs/C13/result_ctor.h); store(values, ..) is given a (2, n) tensor (::selected, proved here)'],
         'trusted': [],
     }
 
